@@ -41,7 +41,7 @@ package table
 //@ pure func (t *Table) holds(h uint64, e *entry.Entry) bool = e.key == t.keyOf(h) && bstr(e.value) == t.valOf(h) && e.ttl == t.ttlOf(h) && e.timestamp == t.tsOf(h)
 
 // Representation invariant.
-//@ opaque pred (t *Table) inv() reads all(t), map(t.hkeys), t.offsetIndex.set, elems(t.memory) =
+//@ opaque pred (t *Table) inv() reads t.hkeys, t.offsetIndex, t.memory, t.allocated, t.offset, t.inuse, t.garbage, t.hk, map(t.hkeys), t.offsetIndex.set, elems(t.memory) =
 //@     t != nil && t.hkeys != nil && t.offsetIndex != nil &&
 //@     len(t.memory) == t.allocated && t.offset <= t.allocated && t.inuse + t.garbage == t.offset &&
 //@     (forall h uint64 {dom(t.hkeys)[h]} :: dom(t.hkeys)[h] ==> t.hkeys[h] + t.sizeAt(t.hkeys[h]) <= t.offset && t.offsetIndex.set[t.hkeys[h]] && t.hk[t.hkeys[h]] == h) &&
@@ -113,6 +113,8 @@ package table
 //@                t.size(hkey) == 29 + len(value.key) + len(value.value)
 //@   ensures  #a_others [C11]: forall h uint64 :: h != hkey && old(t.has(h)) ==> t.keyOf(h) == old(t.keyOf(h)) && t.valOf(h) == old(t.valOf(h)) &&
 //@                t.ttlOf(h) == old(t.ttlOf(h)) && t.tsOf(h) == old(t.tsOf(h)) && t.laOf(h) == old(t.laOf(h)) && t.size(h) == old(t.size(h))
+//@   ensures  #a_error [C11 C17]: result != nil ==> forall h uint64 :: old(t.has(h)) ==> t.keyOf(h) == old(t.keyOf(h)) && t.valOf(h) == old(t.valOf(h)) &&
+//@                t.ttlOf(h) == old(t.ttlOf(h)) && t.tsOf(h) == old(t.tsOf(h)) && t.laOf(h) == old(t.laOf(h)) && t.size(h) == old(t.size(h))
 //@   ensures  #acct [C20]: result == nil ==> t.offset == old(t.offset) + 29 + len(value.key) + len(value.value) &&
 //@                t.inuse == old(t.inuse) + 29 + len(value.key) + len(value.value) - ite(old(t.has(hkey)), old(t.size(hkey)), 0) &&
 //@                t.garbage == old(t.garbage) + ite(old(t.has(hkey)), old(t.size(hkey)), 0)
@@ -136,6 +138,8 @@ package table
 //@   ensures  #sizes_kept [C11] local: forall h uint64 {dom(t.hkeys)[h]} :: h != hkey && old(t.has(h)) ==> t.sizeAt(t.hkeys[h]) == old(t.sizeAt(t.hkeys[h]))
 //@   ensures  #inv_out: t.inv()
 //@   ensures  #a_others [C11]: forall h uint64 :: h != hkey && old(t.has(h)) ==> t.keyOf(h) == old(t.keyOf(h)) && t.valOf(h) == old(t.valOf(h)) &&
+//@                t.ttlOf(h) == old(t.ttlOf(h)) && t.tsOf(h) == old(t.tsOf(h)) && t.laOf(h) == old(t.laOf(h)) && t.size(h) == old(t.size(h))
+//@   ensures  #a_error [C11 C17]: result != nil ==> forall h uint64 :: old(t.has(h)) ==> t.keyOf(h) == old(t.keyOf(h)) && t.valOf(h) == old(t.valOf(h)) &&
 //@                t.ttlOf(h) == old(t.ttlOf(h)) && t.tsOf(h) == old(t.tsOf(h)) && t.laOf(h) == old(t.laOf(h)) && t.size(h) == old(t.size(h))
 //@   ensures  #a_size [C20]: result == nil ==> t.size(hkey) == len(value)
 //@   ensures  #acct [C20]: result == nil ==> t.offset == old(t.offset) + len(value) &&
